@@ -38,7 +38,7 @@ CAND = {
     "boolean": [("True", V), ("False", V), ("0", V), ("1", V), ("2", R), ("-1", R), ("255", R), ("0.5", W), ("'1'", W), ("None", V)],
     "float": [("1.5", V), ("nan", V), ("3", V), ("'1.5'", W), ("'x'", W), ("None", V), ("True", W)],
     "datetime": [("dt(2020,1,1)", V), ("dt(2020,1,1,tz=off(5,30))", V), ("'2020-01-01T00:00:00'", V), ("1600000000", V), ("'not a date'", W), ("None", V),
-                 ("b'2020-01-01'", V), ("1e20", W),
+                 ("b'2020-01-01'", V), ("1e20", W), ("0", V), ("0.0", V), ("False", W),
                  # values built through the field type class itself, by every constructor it inherits
                  ("ft.datetime(2020,1,1,tzinfo=None)", V), ("ft.datetime(2020,1,1,0,0,0,0,None)", V), ("ft.datetime(2020,1,1,0,0,0,0)", V),
                  ("ft.datetime.combine(date(2020,1,1), time(1,2,3))", V), ("ft.datetime.combine(date(2020,1,1), time(1,2,3,tzinfo=off(2)))", V),
@@ -238,6 +238,42 @@ def value_invariant(rec, t, slot, case, viol):
             viol.append(("C05:decoded-unrepresentable-value:%s:%s" % (t, bad), case, {"slot": slot, "value": repr(x)[:80]}))
 
 
+def expected_conversion(t, given):
+    """The stored value the statement itself prescribes for an input, or (False, None) when it prescribes none."""
+    import datetime as _d
+
+    if t in ("string", "wstring", "uri"):
+        if type(given) is bytes:
+            return True, given.decode("utf-8", "surrogateescape")
+        if type(given) is str:
+            return True, given
+    if t == "bytes" and type(given) is bytes:
+        return True, given
+    if t == "datetime" and type(given) is _d.datetime:
+        return True, given.replace(tzinfo=_d.timezone.utc) if given.tzinfo is None else given
+    if t in ("varint", "uint16", "uint32", "filesize") and type(given) is int:
+        return True, given
+    return False, None
+
+
+def conversion_invariant(rec, t, fname, spec, case, viol):
+    """input is converted on the way in: bytes -> text with surrogate escapes, naive timestamp -> the same wall clock in UTC, ..."""
+    try:
+        given = lit.ev(spec)
+    except Exception:  # noqa: BLE001
+        return
+    stored = getattr(rec, fname)
+    pairs = list(zip(given, stored)) if isinstance(given, (list, tuple)) and isinstance(stored, list) and len(given) == len(stored) else [(given, stored)]
+    for g, st in pairs:
+        ok, want = expected_conversion(t, g)
+        if not ok or st is None:
+            continue
+        same = (st == want and (not hasattr(want, "utcoffset") or st.utcoffset() == want.utcoffset())) if not isinstance(want, (str, bytes)) else (
+            (str(st) if isinstance(want, str) else bytes(st)) == want)
+        if not same:
+            viol.append(("C05:converted-to-another-value:%s:%s-input" % (t, type(g).__name__), case, {"field": fname, "given": repr(g)[:80], "stored": repr(st)[:80], "want": repr(want)[:80]}))
+
+
 def run_twins(case):
     h = jhash(case)
     a, b = case["twins"]
@@ -360,6 +396,7 @@ def run_case(case):
             if expect == R:
                 viol.append(("C05:not-rejected:%s:%s" % (label, "after-history" if step else "first"), case, {"step": step, "event": ev, "stored": repr(getattr(rec, ev[0] if ev[0] != "from" else "from"))[:80]}))
             slot_invariant(rec, "assigned", case, viol)
+            conversion_invariant(rec, t, "from" if ev[0] == "from" else ev[0], ev[1], case, viol)
             err, data = serialisable(rec)
             if err is not None:
                 viol.append(("C05:accepted-but-unserialisable:%s:%s%s" % (t, type(err).__name__, text_class(rec)), case, {"event": ev, "error": repr(err)[:200]}))
@@ -412,6 +449,8 @@ def events_for(t, keyword=False):
             if t in TYPED_SEED:
                 evs.append((("xs", "[%s, %s]" % (TYPED_SEED[t], spec)), exp))
                 evs.append((("xs", "(%s, %s)" % (TYPED_SEED[t], spec)), exp))
+                evs.append((("xs", "[%s, %s, %s]" % (TYPED_SEED[t], spec, TYPED_SEED[t])), exp))
+                evs.append((("xs", "[%s, %s]" % (spec, TYPED_SEED[t])), exp))
     return evs
 
 
